@@ -314,6 +314,9 @@ def gen_cases(rng, count: int, n_cli: int) -> list:
         if rng.random() < 0.06:     # a namespace-file stem that is some type's Short_M_m (trigger of F-NS-STEM-COLLIDE)
             t0 = rng.choice(types)
             c['stem'] = '%s_%d_%d' % (t0[1], t0[2], t0[3])
+        if rng.random() < 0.09:     # stems that are not plain file names (trigger of F-NS-STEM-PATH) and a dotted plain one
+            c['stem'] = rng.choice(['sub/x', '../esc', '../../../esc', '@ABS@/x', '@ABS@/deep/y', '.', '..', 'x/', 'a.b', 'v1.2.x']
+                                   + ([''] if gen in ('api', 'no') else []))
         if mock:     # duck-typed types straight into build_namespace_tree (no templates can be rendered for them)
             c.update(mock=True, generate='no', user=None)
             gen = 'no'
@@ -327,7 +330,15 @@ def gen_cases(rng, count: int, n_cli: int) -> list:
 
 # ---- the property as an executable oracle (independent of nunavut and of the Coq model) -----------------------------
 def with_suffix(name: str, ext: str) -> str:
-    return name + ext
+    """PurePath(name).with_suffix(ext) for a plain file name (a last dotted suffix of the name is replaced)"""
+    import pathlib
+    return pathlib.PurePosixPath(name).with_suffix(ext).name
+
+
+def stem_valid(stem: str) -> bool:
+    """a plain file name: what the property can sensibly demand of a namespace-file stem (and what
+    design_notes/C11_stem_validate_fix.patch accepts)"""
+    return stem not in ('', '.', '..') and '/' not in stem and os.sep not in stem
 
 
 def oracle(order: list, strop: dict, es: bool, ext: str, stem: str, outdir: list) -> dict:
@@ -367,14 +378,12 @@ def fold_kinds(order: list, strop: dict, es: bool) -> typing.Tuple[bool, bool]:
     return ns_fold, any(v > 1 for v in files.values())
 
 
-def rel_to_sandbox(parts, spelled: str) -> str:
-    """a path made of pathlib parts, relative to the sandbox directory (cwd of the run); absolute output directories end in
-    .../sandbox/out"""
+def rel_to_sandbox(parts, sandbox: str) -> str:
+    """a path made of pathlib parts, lexically normalised and relative to the sandbox directory (cwd of the run, parent of the output
+    directory): the convention of the harness's file lists (files outside the sandbox start with ../)"""
     parts = list(parts)
-    if parts and parts[0] == '/':
-        i = len(parts) - 1 - parts[::-1].index('sandbox') if 'sandbox' in parts else -1
-        return '/'.join(parts[i + 1:]) if i >= 0 else '/' + '/'.join(parts[1:])
-    return '/'.join(parts)
+    p = os.path.join(*parts) if parts and parts[0] == '/' else os.path.join(sandbox, *parts)
+    return os.path.relpath(os.path.normpath(p), sandbox)
 
 
 def canon_impl(r: dict) -> dict:
@@ -402,6 +411,10 @@ def canon_impl(r: dict) -> dict:
 def oracle_diff(r: dict, file_fold: bool) -> typing.List[str]:
     """discrepancies between the implementation's observable behaviour and the property"""
     out = []
+    if not stem_valid(r['stem']):
+        # the property cannot be met with such a stem: the only acceptable outcome is a refusal (handled in judge)
+        esc = sorted(f for f in r.get('new_files', []) if not f.startswith('out/'))
+        return [STEMPATH_MSG + ' %r was not rejected%s' % (r['stem'], ('; files outside the output directory: %r' % esc) if esc else '')]
     o = oracle(r['order'], r['strop'], r['es'], r['ext'], r['stem'], r['outdir_parts'])
     c = canon_impl(r)
     if r.get('anomalies'):
@@ -467,9 +480,9 @@ def oracle_diff(r: dict, file_fold: bool) -> typing.List[str]:
         out.append('build_namespace_tree created files: %r' % r['after_build_new_files'])
     # files on disk
     if 'new_files' in r:
-        exp_files = {rel_to_sandbox(p, r['outdir_spelled']) for p in o['paths'].values()}
+        exp_files = {rel_to_sandbox(p, r['sandbox']) for p in o['paths'].values()}
         if r.get('generate_namespace_types'):
-            exp_files |= {rel_to_sandbox(v['path'], r['outdir_spelled']) for v in o['nodes'].values()}
+            exp_files |= {rel_to_sandbox(v['path'], r['sandbox']) for v in o['nodes'].values()}
         got = set(r['new_files'])
         outside = sorted(f for f in got if not f.startswith('out/'))
         if outside:
@@ -477,7 +490,10 @@ def oracle_diff(r: dict, file_fold: bool) -> typing.List[str]:
         if r.get('cli_rc', 0) != 0:
             out.append('nnvg failed: rc=%r %s' % (r.get('cli_rc'), r.get('cli_out', '')[-300:]))
         if r.get('with_support'):
-            got = got & exp_files     # support files (C08/C12) are allowed, inside the output directory
+            # the complete expected set: type/namespace files + the files of a support-only run with the same options
+            if r.get('support_rc', 1) != 0:
+                out.append('support-only reference run failed: rc=%r' % r.get('support_rc'))
+            exp_files = exp_files | set(r.get('support_files', []))
         if got != exp_files:
             out.append('files on disk: missing %r, unexpected %r' % (sorted(exp_files - got), sorted(got - exp_files)))
         if 'include_filter' in r:
@@ -689,6 +705,9 @@ def run_impl(cases: typing.List[dict], workers: int = 0) -> typing.List[dict]:
 
 
 STEM_MSG = 'namespace file and type file are one path'
+STEMPATH_MSG = 'namespace-file stem that is not a plain file name'
+STEMPATH_ID = 'F-NS-STEM-PATH'
+KF_PATH_LIVE = False    # set by main() after probing the witness
 STEM_ID = 'F-NS-STEM-COLLIDE'
 KF_STEM_LIVE = False     # set by main() after probing the witness
 
@@ -710,10 +729,11 @@ def judge(case: dict, r: dict, kf_live: bool, models: typing.Optional[typing.Lis
     if r.get('raised') is not None:
         # build_namespace_tree refused the configuration (stem check).  Right iff a namespace file really is a type file, and
         # nothing was written; the model (instantiated with the regenerated pin_c11tree_stem_check) must refuse it too.
-        o = oracle(r['order'], r['strop'], r['es'], r['ext'], r['stem'], r['outdir_parts'])
-        tfiles = set(o['paths'].values())
-        if not any(n['path'] in tfiles for n in o['nodes'].values()):
-            v['oracle'] = ['build_namespace_tree raised although no namespace file is a type file: %s' % r['raised'][:200]]
+        if stem_valid(r['stem']):
+            o = oracle(r['order'], r['strop'], r['es'], r['ext'], r['stem'], r['outdir_parts'])
+            tfiles = set(o['paths'].values())
+            if not any(n['path'] in tfiles for n in o['nodes'].values()):
+                v['oracle'] = ['build_namespace_tree raised although the stem is a plain file name and no namespace file is a type file: %s' % r['raised'][:200]]
         if r.get('after_build_new_files'):
             v['oracle'].append('files written before the error: %r' % r['after_build_new_files'])
         if models is not None and not all(m['raised'] for m in models):
@@ -739,6 +759,18 @@ def judge(case: dict, r: dict, kf_live: bool, models: typing.Optional[typing.Lis
             bad = [d for d in diffs if d]
             if bad:
                 v['model'] = bad[0]
+    if od and KF_PATH_LIVE and not stem_valid(r['stem']) and models is not None and not v['model']:
+        # known finding F-NS-STEM-PATH: trigger = stem is not a plain file name; the model (general ns_path, no validation) reproduces
+        # the tree and every path; the files on disk must then be exactly the model's paths
+        m = models[-1]
+        seq = m['all_seq'] if r.get('generate_namespace_types') else [('T',) + x for x in m['dt_seq']]
+        exp = {rel_to_sandbox(x[-1], r['sandbox']) for x in seq}
+        if 'new_files' in r and set(r['new_files']) != exp:
+            od = ['files on disk differ from the quirk-faithful model: missing %r, unexpected %r'
+                  % (sorted(exp - set(r['new_files'])), sorted(set(r['new_files']) - exp))]
+        else:
+            v['kf_path'] = True
+            od = []
     if od and KF_STEM_LIVE and stem_trigger(r) and not v['model']:
         # known finding F-NS-STEM-COLLIDE: only the collision itself is suppressed, and only when the trigger holds and the model
         # (which has the behaviour: c11_targets_distinct_refuted) reproduces the implementation
@@ -846,6 +878,15 @@ def main(chk: core.Check, replay: typing.Optional[str] = None) -> int:
             KF_STEM_LIVE = len(set(paths)) < len(paths) and len(r.get('new_files', [])) < len(paths)
         if KF_STEM_LIVE:
             chk.report_known(STEM_ID)
+    global KF_PATH_LIVE
+    KF_PATH_LIVE = False
+    if chk.is_known(STEMPATH_ID):
+        w = chk.known_entry(STEMPATH_ID)['witness']
+        wc = dict(id='kfpath', types=w['types'], lang=w['lang'], outdir='rel', generate='api', shuffle=0, ext=None, stem=w['stem'], es=None, user=None)
+        r = run_impl([wc], workers=1)[0]
+        KF_PATH_LIVE = 'err' not in r and r.get('raised') is None and any(not f.startswith('out/') for f in r.get('new_files', []))
+        if KF_PATH_LIVE:
+            chk.report_known(STEMPATH_ID)
     models = run_model(exe, impl, prefix_quirk=kf_live) if ok_model else [None] * len(cases)
 
     stats = collections.Counter()
@@ -862,6 +903,8 @@ def main(chk: core.Check, replay: typing.Optional[str] = None) -> int:
         stats['file_fold_cases'] += v['file_fold']
         stats['known_finding_instances'] += v['kf']
         stats['stem_collision_instances'] += bool(v.get('kf_stem'))
+        stats['stem_not_plain_file_name_cases'] += ('err' not in r) and not stem_valid(r.get('stem', 'x'))
+        stats['stem_path_instances'] += bool(v.get('kf_path'))
         if 'err' not in r and r.get('raised') is not None:
             stats['refused_by_stem_check'] += 1
             if models[i] is not None:
